@@ -624,6 +624,18 @@ class LAFacade(types.ModuleType):
         return out
 
     @staticmethod
+    def qr(M, *a, **k):
+        """numpy.linalg.qr, modelled jointly with scipy.linalg.solve_triangular (ref_solve_triangular): the factorisation of a concrete
+        matrix is returned as (identity, M) - Q orthonormal, Q R = M - and the triangular solve with R is an exact general solve, so
+        solve_triangular(R, Q^T y) is the exact solution of M x = y.  Code that used the triangular shape of R otherwise is not modelled."""
+        if _has_sym(M):
+            raise Unsupported('QR factorisation of a symbolic matrix')
+        M = _tofloat(_np.asarray(M))
+        if M.ndim != 2 or M.shape[0] != M.shape[1]:
+            return _np.linalg.qr(M, *a, **k)
+        return _np.identity(M.shape[0]), M
+
+    @staticmethod
     def lstsq(a, b, rcond=None):
         """numpy.linalg.lstsq: concrete data -> numpy; symbolic data -> the harness-provided stand-in LSTSQ_HOOK[0] (P3)."""
         if LSTSQ_HOOK[0] is not None:
@@ -659,6 +671,11 @@ class LAFacade(types.ModuleType):
         raise Unsupported('norm ord=%r' % (ord,))
 
 
+def ref_solve_triangular(R, y, *a, **k):
+    """scipy.linalg.solve_triangular on the R of LAFacade.qr: exact solution of R x = y (see LAFacade.qr)."""
+    return LAFacade.solve(R, y)
+
+
 LSTSQ_HOOK = [None]
 _LA = LAFacade()
 
@@ -684,6 +701,7 @@ def _replacements():
         ('copysign', _math.copysign, _m_copysign),
         ('interpn', scipy.interpolate.interpn, ref_interpn),
         ('LA', _np.linalg, _LA),
+        ('solve_triangular', __import__('scipy.linalg').linalg.solve_triangular, ref_solve_triangular),
         ('scipy', __import__('scipy'), _ScipyFacade()),
     ]
 
